@@ -1725,6 +1725,70 @@ example : ∀ p ∈ exPairs ++ exPairsBad, EzdxfVerif.Lemmas.RecoverCausal.PairO
   · exact ⟨⟨[32, 32, 56], rfl, by decide⟩, ⟨[255, 254, 128], rfl, by decide⟩, 8, by rfl, by decide⟩
 #guard EzdxfVerif.Lemmas.RecoverCausal.chunkTags exPairsBad == [⟨0, sLine⟩, ⟨8, [255, 254, 128]⟩]
 
+/-! ## 13. Guard branches of two front-end helpers (probed on the real functions in `regenerate`) -/
+
+/-- `fix_coordinate_order` on a LINE without any coordinate tag (e.g. a duplicated (0, LINE) structure tag): the tags are
+    returned unchanged - the "no coordinates found" guard; without it `min()` over an empty sequence raises ValueError -/
+theorem fix_coordinate_order_identity (tags : List RawTag) (h : ∀ t ∈ tags, isCoordCode t.code = false) :
+    fixCoordinateOrder tags = tags := by
+  unfold fixCoordinateOrder
+  have : tags.filter (fun t => isCoordCode t.code) = [] := by
+    rw [List.filter_eq_nil_iff]
+    intro t ht
+    simp [h t ht]
+  simp [this]
+
+/-- `tag_reorder_layer` on a LINE group without coordinate tags: at the next (0, ..) tag `z` the collected group comes
+    out exactly as it went in.  (Totality itself is structural: `tagReorder` is a total function whose only helper
+    `fixCoordinateOrder` has no failing branch; `front_total` covers the whole front end.) -/
+theorem reorder_total (tags : List RawTag) (z : RawTag) (hz : z.code = 0) :
+    ∀ col : List RawTag, (∀ t ∈ tags, isCoordCode t.code = false) → (∀ t ∈ col, isCoordCode t.code = false) →
+      ∃ pre, tagReorder (some col) (tags ++ [z]) = col.reverse ++ pre := by
+  induction tags with
+  | nil =>
+    intro col _ hc
+    have h0 : (z.code == 0) = true := by simp [hz]
+    simp only [List.nil_append, tagReorder, h0, if_true]
+    rw [fix_coordinate_order_identity col.reverse (by intro t ht; exact hc t (List.mem_reverse.1 ht))]
+    split <;> exact ⟨_, rfl⟩
+  | cons t r ih =>
+    intro col h hc
+    by_cases h0 : (t.code == 0) = true
+    · simp only [List.cons_append, tagReorder, h0, if_true]
+      rw [fix_coordinate_order_identity col.reverse (by intro x hx; exact hc x (List.mem_reverse.1 hx))]
+      split <;> exact ⟨_, rfl⟩
+    · have h0' : (t.code == 0) = false := by simpa using h0
+      simp only [List.cons_append, tagReorder, h0', Bool.false_eq_true, if_false]
+      have hcol : ∀ x ∈ t :: col, isCoordCode x.code = false := by
+        intro x hx
+        rcases List.mem_cons.1 hx with rfl | hx
+        · exact h _ (by simp)
+        · exact hc x hx
+      obtain ⟨pre, h1⟩ := ih (t :: col) (fun x hx => h x (by simp [hx])) hcol
+      exact ⟨t :: pre, by rw [h1]; simp⟩
+
+example : tagReorder none [⟨0, sLine⟩, ⟨0, sLine⟩, ⟨8, [48]⟩, ⟨0, sEof⟩] = [⟨0, sLine⟩, ⟨0, sLine⟩, ⟨8, [48]⟩, ⟨0, sEof⟩] := by rfl
+
+/-- `recover_rootdict` / `_find_rootdict` when NO root dictionary exists (its (0, DICTIONARY) tag or its (3, ACAD_GROUP)
+    key is damaged): the OBJECTS entry is left unchanged - the `return 0, Tags()` fallback; a bare `next(generator)`
+    raises StopIteration instead -/
+theorem find_rootdict_total (objs : List (List CTag)) (h : ∀ g ∈ objs, isRootdict g = false) :
+    recoverRootdict objs = objs := by
+  unfold recoverRootdict
+  split
+  · next o0 o1 rest =>
+    have h1 : isRootdict o1 = false := h o1 (by simp)
+    simp only [h1, Bool.false_eq_true, if_false]
+    have : (o0 :: o1 :: rest).findIdx? isRootdict = none := by
+      rw [List.findIdx?_eq_none_iff]
+      intro g hg
+      simp [h g hg]
+    rw [this]
+  · rfl
+
+example : recoverRootdict [[⟨0, .str sSection⟩], [⟨0, .str sDictionary⟩, ⟨5, .str [67]⟩], [⟨0, .str sXrecord⟩]]
+    = [[⟨0, .str sSection⟩], [⟨0, .str sDictionary⟩, ⟨5, .str [67]⟩], [⟨0, .str sXrecord⟩]] := by rfl
+
 /-! ## 7. Obligations on the generated tables -/
 
 /-- the group codes whose VALUE the front end inspects as text - 0 (structure), 2 (section / table names), 3 and 9
